@@ -380,7 +380,13 @@ func (r *Runner) gen(root, top string, w *World, g *GenSpec, inputs map[string]s
 	n := r.counter.Add(1)
 	planPath := filepath.Join(top, fmt.Sprintf("plan-%d.json", n))
 	logPath := filepath.Join(top, fmt.Sprintf("log-%d.jsonl", n))
-	pb, _ := json.Marshal(g.Plan)
+	plan := g.Plan
+	if plan.Goroutines == "" && r.Node.HasKind("go") {
+		// canonical goroutine semantics when the code under test spawns goroutines at all:
+		// run them inline, in spawn order; "native" and "deferred" are explicit variations
+		plan.Goroutines = "inline"
+	}
+	pb, _ := json.Marshal(plan)
 	if err := os.WriteFile(planPath, pb, 0o644); err != nil {
 		return nil, &InfraError{Msg: err.Error()}
 	}
